@@ -60,12 +60,22 @@ def run(run, args):
                "%d bitwise differences, %d beyond 1e-12" % (len(res[0]), len(res[1])))
     run.oblige("shape and request resolution hold on every implementation output outside the listed known findings", not fails, "")
     run.oblige("signal-fraction request = fixed request for the Poisson estimate", not pres[0], "")
+    # the reusable generator object (one instance alive through the whole run) must answer every request as the free function does
+    gen_diff = [r["id"] for r in recs if "gen_out" in r and r["gen_out"] != r["out"]]
+    run.cov["generator_entry_point"] = {"requests_through_one_long_lived_generator": sum(1 for r in recs if "gen_out" in r), "differing": len(gen_diff)}
+    run.oblige("the long-lived generator object returns the free function's pattern for every request of the run (bit for bit)", not gen_diff,
+               "%d differ" % len(gen_diff))
     broken = standard_proof_obligations(run, "C09", THEOREMS) if THEOREMS else []
     broken += standard_proof_obligations(run, "C09b", ["C09_center_bounds", "C09_center_between", "C09_element_sandwich", "C09_table_sane"])
     broken += standard_proof_obligations(run, "C09c", ["C09_center_ladder", "C09_center_ladder_between", "C09_center_strict", "C09_element_ladder",
                                                        "C09_ladder_gap", "C09_table_ladder", "C09_table_ladder_read", "C09_table_gap", "C09_glucose_strict"])
     for k in sorted(knowns):
         print("KNOWN-FINDING: property=C09 %s %s" % (k, known[k]))
+    if gen_diff:
+        i = gen_diff[0]
+        violation(run, {"failing_input": dict(by_id[i], earlier_requests_on_the_same_generator=[{k: r[k] for k in ("ents", "req", "charge")} for r in recs if r["id"] < i][-6:]),
+                        "what": "the reusable generator object, after the earlier requests of this run, does not return the pattern the free function returns for "
+                                "this (composition, request): not the requested peaks / a panic", "all_failing_ids": gen_diff[:40]})
     if fails:
         violation(run, {"failing_input": by_id[fails[0]], "what": "the coarse pattern is ill-shaped or does not honour the request (see c09_code in "
                         "coq/model/BrainCheck.v: emptiness, order, mass bounds, length, omitted share, normalisation)", "all_failing_ids": fails[:40]})
